@@ -432,7 +432,7 @@ def teardown(ctx):
 
 
 WORKLOADS = [
-    Workload("random", wl_random, quick=60, thorough=2500),
+    Workload("random", wl_random, quick=60, thorough=5000),
     Workload("alphabet", wl_alphabet, quick=lambda: alphabet_size("quick"), thorough=lambda: alphabet_size("thorough"), exhaustive=True),
 ]
 
